@@ -409,10 +409,11 @@ impl<T: Send> Sender<T> {
   /// `Sender` is not called.
   pub fn to_async(self) -> AsyncSender<T> {
     let shared = unsafe { std::ptr::read(&self.shared) };
+    let closed = self.closed.load(Ordering::Relaxed);
     mem::forget(self);
     AsyncSender {
       shared,
-      closed: AtomicBool::new(false),
+      closed: AtomicBool::new(closed),
     }
   }
 
@@ -639,10 +640,11 @@ impl<T: Send> Receiver<T> {
   /// `Receiver` is not called.
   pub fn to_async(self) -> AsyncReceiver<T> {
     let shared = unsafe { std::ptr::read(&self.shared) };
+    let closed = self.closed.load(Ordering::Relaxed);
     mem::forget(self);
     AsyncReceiver {
       shared,
-      closed: AtomicBool::new(false),
+      closed: AtomicBool::new(closed),
       state: AtomicU8::new(STATE_WAITING),
       is_registered: false,
     }
@@ -833,10 +835,11 @@ impl<T: Send> AsyncSender<T> {
   /// `AsyncSender` is not called.
   pub fn to_sync(self) -> Sender<T> {
     let shared = unsafe { std::ptr::read(&self.shared) };
+    let closed = self.closed.load(Ordering::Relaxed);
     mem::forget(self);
     Sender {
       shared,
-      closed: AtomicBool::new(false),
+      closed: AtomicBool::new(closed),
     }
   }
 
@@ -1054,10 +1057,11 @@ impl<T: Send> AsyncReceiver<T> {
       }
     }
     let shared = unsafe { std::ptr::read(&self.shared) };
+    let closed = self.closed.load(Ordering::Relaxed);
     mem::forget(self); // AtomicU8 has no destructor; safe to forget.
     Receiver {
       shared,
-      closed: AtomicBool::new(false),
+      closed: AtomicBool::new(closed),
     }
   }
 
